@@ -189,8 +189,12 @@ Theorem C19_load_surfer_result : forall pint pflt pval fs src dt,
   match src with
   | Path p => match fs p with
               | None => Err EIO
-              | Some c => read_lines pint pflt pval (Some p) dt c
+              | Some c => read_lines pint pflt pval (Some (FStr p)) dt c
               end
+  | PathObj p => match fs p with
+                 | None => Err EIO
+                 | Some c => read_lines pint pflt pval (Some (FPathObj p)) dt c
+                 end
   | FileObj h => match hd_state h with
                  | Closed => Err EValue
                  | Opened => read_lines pint pflt pval None dt (hd_lines h)
@@ -199,21 +203,46 @@ Theorem C19_load_surfer_result : forall pint pflt pval fs src dt,
 Proof. exact load_surfer_result. Qed.
 Print Assumptions C19_load_surfer_result.
 
+(** the metadata is part of what is returned: the [file] attribute of a grid
+    loaded from the string [p] is [p] itself, for EVERY string - no
+    normalisation of "./x", "a//b", "a/./b", "a/../a/b", relative or absolute;
+    from a pathlib.Path it is that Path object; from a file object there is
+    no [file] attribute *)
+Theorem C19_file_attr_is_given : forall pint pflt pval fs p dt g,
+  o_result (load_surfer pint pflt pval fs (Path p) dt) = Ok g -> g_file g = Some (FStr p).
+Proof. exact file_attr_is_given. Qed.
+Print Assumptions C19_file_attr_is_given.
+
+Theorem C19_file_attr_pathobj : forall pint pflt pval fs p dt g,
+  o_result (load_surfer pint pflt pval fs (PathObj p) dt) = Ok g -> g_file g = Some (FPathObj p).
+Proof. exact file_attr_pathobj. Qed.
+Print Assumptions C19_file_attr_pathobj.
+
+Theorem C19_file_attr_fileobj : forall pint pflt pval fs h dt g,
+  o_result (load_surfer pint pflt pval fs (FileObj h) dt) = Ok g -> g_file g = None.
+Proof. exact file_attr_fileobj. Qed.
+Print Assumptions C19_file_attr_fileobj.
+
 Theorem C19_path_equals_fileobj : forall pint pflt pval fs p c dt,
   fs p = Some c ->
   o_result (load_surfer pint pflt pval fs (Path p) dt) =
-  map_result (with_file (Some p))
+  map_result (with_file (Some (FStr p)))
+    (o_result (load_surfer pint pflt pval fs (FileObj {| hd_lines := c; hd_state := Opened |}) dt)) /\
+  o_result (load_surfer pint pflt pval fs (PathObj p) dt) =
+  map_result (with_file (Some (FPathObj p)))
     (o_result (load_surfer pint pflt pval fs (FileObj {| hd_lines := c; hd_state := Opened |}) dt)).
 Proof. exact path_equals_fileobj. Qed.
 Print Assumptions C19_path_equals_fileobj.
 
 (** on every input and every outcome (grid or error) the file the function
-    opened is closed, and it opened nothing else *)
-Theorem C19_handle_closed : forall pint pflt pval fs p dt,
-  match o_opened (load_surfer pint pflt pval fs (Path p) dt) with
+    opened - given as a string or as a Path - is closed, and it opened
+    nothing else *)
+Theorem C19_handle_closed : forall pint pflt pval fs src p dt,
+  is_path src p ->
+  match o_opened (load_surfer pint pflt pval fs src dt) with
   | Some h => hd_state h = Closed /\ fs p = Some (hd_lines h)
   | None => fs p = None
-  end /\ o_given (load_surfer pint pflt pval fs (Path p) dt) = None.
+  end /\ o_given (load_surfer pint pflt pval fs src dt) = None.
 Proof. exact handle_closed. Qed.
 Print Assumptions C19_handle_closed.
 
@@ -286,7 +315,8 @@ Proof.
 Qed.
 
 Example C19_nv_loads : exists g,
-  read_lines ex_int ex_flt ex_val (Some "a.grd") F64 ex_file = Ok g /\
+  read_lines ex_int ex_flt ex_val (Some (FStr "./grids//a.grd")) F64 ex_file = Ok g /\
+  g_file g = Some (FStr "./grids//a.grd") /\
   g_vals g = [[Fin (1, 0)%Z; Fin (1, 1)%Z; Fin (3, 0)%Z]; [Fin (1, 2)%Z; Fin (5, 0)%Z; NaN]] /\
   g_id g = "DSAA" /\ length (g_north g) = 2%nat /\ length (g_east g) = 3%nat.
 Proof. eexists. split; [vm_compute; reflexivity|]. repeat split. Qed.
